@@ -45,7 +45,7 @@ def conf_batched(ctx, module, cfg, recs, label, bsize=24, big=3000):
     if cur:
         batches.append(cur)
     before = {k: ctx.cov.get(k, 0) for k in ('impl_traces', 'tlc_checked_cases')}
-    pr, ir = ucheck.conformance(ctx, module, cfg, [{'b': [recs[k] for k in b]} for b in batches], label, chunk=500)
+    pr, ir = ucheck.conformance(ctx, module, cfg, [{'b': [recs[k] for k in b]} for b in batches], label, chunk=max(100, -(-len(batches) // 4)))
     prej, irej = [], []
     for rejected, out in ((pr, prej), (ir, irej)):
         rejected = sorted(rejected)
